@@ -1,6 +1,6 @@
 """CLI level: the same case through `cminx.main([...])` (argparse + confuse + real logging configuration) must give the output
 tree / stdout that the `document()` API gives — in particular stdout carries the pages and nothing else."""
-import contextlib, io, logging, os, random
+import contextlib, io, logging, os, random, re
 
 import yaml
 import impl, s_tree as T
@@ -20,6 +20,9 @@ def run_main(sb_dir, case, variant, out_mode='abs'):
         q = os.path.join(base, '+loc+', '+i%d+' % k, other['name']); T.materialize(q, other['children']); more.append((q, other))
     home = os.path.join(base, 'home'); os.makedirs(os.path.join(home, '.config'), exist_ok=True)
     work = os.path.join(base, '+work+'); os.makedirs(work, exist_ok=True)
+    # the directory the command runs in: '+work+' (holds nothing a pattern could name), or one given relative to the input directory
+    # (`cli_cwd`: '.', '..', a sub-directory) -- there the names that bare patterns carry exist as entries of the working directory
+    if case.get('cli_cwd') and inp['kind'] == 'dir': work = os.path.normpath(os.path.join(p, case['cli_cwd']))
     sfile = os.path.join(base, 's.yaml')
     cfgd = {'input': {'auto_exclude_directories_without_cmake': st['auto_exclude']},
             'rst': {'module_path_separator': st.get('sep', '.'), 'file_extensions_in_titles': st.get('ext_titles', False),
@@ -88,13 +91,77 @@ def run_main(sb_dir, case, variant, out_mode='abs'):
         stray = os.path.join(start_cwd, 'rel'); shutil.rmtree(stray, ignore_errors=True)
     files = T.read_tree(out_abs) if out_abs else {}
     damaged = sorted(q for q in pre if files.get(q) != pre[q])
-    return dict(status=status, stdout=stdout.getvalue(), files={q: t for q, t in files.items() if q not in pre}, changed_outside=changed, stray=stray, damaged=damaged)
+    return dict(status=status, stdout=stdout.getvalue(), files={q: t for q, t in files.items() if q not in pre}, changed_outside=changed, stray=stray, damaged=damaged, abs_input=p)
+
+
+def tree_dirs(children, rel=()):
+    """(path, children) of every directory of the tree that is no link, the root first"""
+    out = [(rel, children)]
+    for c in children:
+        if 'children' in c and not c.get('dirlink'): out += tree_dirs(c['children'], rel + (c['name'],))
+    return out
+
+
+PLANTED = 'function(planted_f a)\nendfunction()\n'
+
+
+def names_in_cwd(g, case, mode):
+    """C15: the command is started in a directory in which the name that a bare `name` / `name/` pattern of the command line carries
+    EXISTS as an entry -- the input directory itself ('.'), one of its sub-directories ('sub') or the directory that holds the input
+    ('..') -- and the tree has the same name at another depth as well (planted where it has none).  What a pattern means depends neither
+    on where the command is started nor on the source it comes from: the pattern goes first (= on the command line) and the run is
+    compared with the API run, which gets all patterns in one list and starts in the empty '+work+'"""
+    inp = case['inputs'][0]; dirs = tree_dirs(inp['children']); tame = lambda c: not c.get('dirlink') and not set(c['name']) & set('\\*?[]!#')
+    crel, cch = (), inp['children']
+    if mode == 'sub':
+        subs = [d for d in dirs[1:] if any(tame(c) for c in d[1])]
+        if subs: crel, cch = g.choice(subs)
+    if mode == '..': nm, isdir, here = inp['name'], True, None      # the one entry of that directory is the input
+    else:
+        cands = [c for c in cch if tame(c) and ('children' in c or T.iscm(c['name']))] or [c for c in cch if tame(c)]
+        if not cands: return
+        c = g.choice(cands); nm, isdir = c['name'], 'children' in c; here = crel + (nm,)
+    # directories that may hold the second entry of that name: not the working directory, nothing below the first entry (pruned with it)
+    hosts = [d for d in dirs if (mode == '..' or d[0] != crel) and not (here and isdir and d[0][:len(here)] == here)]
+    if not any(c['name'] == nm and not c.get('dirlink') for _, ch in hosts for c in ch):
+        stem = lambda s: s.lower().rsplit('.', 1)[0]
+        free = [d for d in hosts if not any(c['name'].lower() == nm.lower() or (not isdir and 'children' not in c and stem(c['name']) == stem(nm)) for c in d[1])]
+        if free: host = g.choice(free)[1]
+        else:
+            host = []; inp['children'].append(dict(name='zz_more', children=host))
+        host.insert(g.randint(0, len(host)), dict(name=nm, children=[dict(name='planted.cmake', content=PLANTED)]) if isdir else dict(name=nm, content=PLANTED))
+    pat = nm + '/' if isdir and g.random() < 0.5 else nm
+    case['patterns'] = [pat] + [pt for pt in case.get('patterns', []) if pt != pat]
+    case['settings']['recursive'] = True; case['cli_cwd'] = '..' if mode == '..' else (os.path.join(*crel) if crel else '.')
+
+
+def own_patterns(g, inp):
+    """1-3 patterns of the forms C15 names, each of which MATCHES something of this input: taken from the tree's own names"""
+    if inp['kind'] != 'dir': return [g.choice([inp['name'], '*' + inp['name'][-6:], '{INP}', '**/' + inp['name']])]
+    dirs = [d[0] for d in tree_dirs(inp['children'])[1:] if not set(d[0][-1]) & set('\\*?[]!#')]; files = []
+    for rel, ch in tree_dirs(inp['children']):
+        files += [rel + (c['name'],) for c in ch if 'children' not in c and not set(c['name']) & set('\\*?[]!#')]
+    cm = [f for f in files if T.iscm(f[-1])]; root = '/+r+/' + inp['name']
+    for _ in range(8):
+        pats = []
+        for _ in range(g.randint(1, 3)):
+            k = g.random()
+            if dirs and k < 0.4:
+                d = g.choice(dirs); pats.append(g.choice([d[-1] + '/', d[-1], '**/%s/' % d[-1], '{INP}/%s/' % '/'.join(d), '**/%s/*.cmake' % d[-1]]))
+            elif files:
+                f = g.choice(cm if cm and g.random() < 0.8 else files); pats.append(g.choice([f[-1], f[-1], '**/' + f[-1], '{INP}/' + '/'.join(f), '*' + f[-1][-6:]]))
+        if g.random() < 0.1: pats.append(inp['name'] + '/')      # the input itself
+        hit, spec = T.excluded_list(root + '/', inp['children'], [pt.replace('{INP}', root) for pt in pats])
+        if hit or spec.match_file(root + '/'): break
+    return pats
 
 
 def cli_suite(prop, seed, count, out, drv):
     """stdout mode (C18) or file mode (C13): main() vs document()"""
     import s_treeprops as P
-    for n in range(count):
+    # on top of the `count` cases -- C15: started where the bare names of the command line exist; C18: stdout mode with patterns that match
+    more = {'C15': max(8, count // 2), 'C18': max(8, count // 3)}.get(prop, 0)
+    for n in range(count + more):
         g = random.Random(f"{prop}/cli/{seed}/{n}")
         case = P.gen_case(g, prop)
         case['inputs'] = case['inputs'][:1]; case.pop('target', None)
@@ -112,11 +179,16 @@ def cli_suite(prop, seed, count, out, drv):
         case['output'] = None if (prop == 'C18' and not rel_mode and not beside) else 'abs'
         case['cli_out'] = beside or ('sfile-rel' if sfile_mode else ('rel' if rel_mode else 'abs'))
         if prop == 'C15' and len(case.get('patterns', [])) < 2: case['patterns'] = list(case.get('patterns', [])) + ['*.txt', 'b.cmake', 'sub/']
+        if n >= count:
+            gx = random.Random(f"{prop}/cli+/{seed}/{n}"); case['cli_out'] = 'abs'
+            if prop == 'C15' and case['inputs'][0]['kind'] == 'dir': names_in_cwd(gx, case, ['.', 'sub', '.', 'sub', '..'][(n - count) % 5])
+            if prop == 'C18': case['output'] = None; case['patterns'] = own_patterns(gx, case['inputs'][0])
         if case['settings'].get('cfg') and case['settings']['cfg'].get('trigger') is not None: case['settings']['cfg'].pop('trigger', None)
         key = (prop, 'cli', seed, n)
         with impl.Sandbox() as sb:
             api = T.run_real(sb.dir, case, variant='api')
             cli = run_main(sb.dir, case, 'cli', out_mode=case['cli_out'])
+            if prop == 'C18' and case['output'] is None: with_o = run_main(sb.dir, dict(case, output='abs'), 'cli_o', out_mode='abs'); out.traces_validated += 1
         out.traces_validated += 2; out.note_case(key, True); out.dist['cli:' + cli['status']] += 1
         rec = dict(suite='cli', key=key, case=case)
         if api['status'] != 'ok': continue
@@ -132,8 +204,22 @@ def cli_suite(prop, seed, count, out, drv):
                                                             expected=api['stdout'][:300], real=cli['stdout'][:300]), model_agrees=True))
             if cli['files']:
                 out.violations.append(dict(rec, detail=dict(kind='files written without -o', files=sorted(cli['files'])[:5]), model_agrees=True))
+            # the statement itself: exactly the pages that the same invocation with -o writes for the CMake files, directory by directory in
+            # the order of the walk, the files of a directory sorted, one empty line after each -- and nothing else
+            inp = case['inputs'][0]; st = case['settings']
+            excl, spec = P.excl_fn(case, with_o['abs_input']); order = []
+            if inp['kind'] != 'dir': order = [] if spec.match_file(with_o['abs_input']) else [[inp['name']]]
+            elif not spec.match_file(os.path.join(with_o['abs_input'], '')): T.spec_walk(inp['children'], [], excl, st['recursive'], st['auto_exclude'], {}, order)
+            pages = [with_o['files'].get(os.path.join(*(f[:-1] + ['.'.join(f[-1].split('.')[:-1]) + '.rst']))) for f in order]
+            norm = lambda s: re.sub(r'\n+', '\n', s)
+            if with_o['status'] != 'ok' or None in pages:
+                out.violations.append(dict(rec, detail=dict(kind='the same command line with -o fails or lacks a page', status=with_o['status'], written=sorted(with_o['files'])[:8]), model_agrees=True))
+            elif cli['stdout'] != ''.join(pg + '\n\n' for pg in pages) and norm(cli['stdout']) != norm(''.join(pg + '\n\n' for pg in pages)):
+                foreign = [l for l in cli['stdout'].split('\n') if l not in ''.join(pg + '\n' for pg in pages).split('\n')][:5]
+                out.violations.append(dict(rec, detail=dict(kind='standard output is not exactly the pages that the same command line writes with -o', foreign_lines=foreign,
+                                                            expected=''.join(pg + '\n\n' for pg in pages)[:300], real=cli['stdout'][:300]), model_agrees=True))
         else:
             if cli['files'] != api['files']:
                 diff = sorted(set(cli['files']) ^ set(api['files'])) or [p for p in api['files'] if api['files'][p] != cli['files'].get(p)]
                 out.violations.append(dict(rec, detail=dict(kind='output tree of the command line differs from the API', paths=diff[:6]), model_agrees=True))
-    out.suites.append(dict(name='cli-vs-api', cases=count))
+    out.suites.append(dict(name='cli-vs-api', cases=count + more))
